@@ -150,14 +150,47 @@ def composed_at(fnode, target, expr, stop_at=None):
     return out
 
 
+_CONV_DEFS = {}      # name -> FunctionDef of converters defined next to the passes (filled by rule_args from the wrapper's children)
+
+
 def unwrap_passes(e):
-    """for_each_in(L3, for_each_in(L2, for_each_in(L1, X)))  ->  ([L1, L2, L3], X)"""
+    """for_each_in(L3, for_each_in(L2, for_each_in(L1, X)))  ->  ([L1, L2, L3], X);  a pass is a lambda or a named converter"""
     passes = []
-    while isinstance(e, ast.Call) and norm(e.func) == "for_each_in" and len(e.args) == 2 and isinstance(e.args[0], ast.Lambda):
+    while isinstance(e, ast.Call) and norm(e.func) == "for_each_in" and len(e.args) == 2 and (
+            isinstance(e.args[0], ast.Lambda) or (isinstance(e.args[0], ast.Name) and e.args[0].id in _CONV_DEFS)):
         passes.append(e.args[0])
         e = e.args[1]
     passes.reverse()
     return passes, e
+
+
+def pass_kinds(conv):
+    """[(type tested, action on the leaf written as `x`)] of a converter: the one-kind lambda of pass_kind, or a named function
+           def conv(x):  (if isinstance(x, T | (T1, T2, ..)): return ACT)*  return x
+       which converts several kinds in ONE traversal (so that wires are allocated in call order)"""
+    if isinstance(conv, ast.Lambda):
+        k = pass_kind(conv)
+        return [k] if k else []
+    f = _CONV_DEFS.get(conv.id) if isinstance(conv, ast.Name) else None
+    if f is None or len(f.args.args) != 1:
+        return []
+    x = f.args.args[0].arg
+    body = [s for s in f.body if not (isinstance(s, ast.Expr) and isinstance(s.value, ast.Constant))]
+    if not body or not (isinstance(body[-1], ast.Return) and norm(body[-1].value) == x):
+        return []
+    out = []
+    seen = set()
+    for s in body[:-1]:
+        if not (isinstance(s, ast.If) and not s.orelse and len(s.body) == 1 and isinstance(s.body[0], ast.Return) and s.body[0].value is not None
+                and isinstance(s.test, ast.Call) and norm(s.test.func) == "isinstance" and len(s.test.args) == 2 and norm(s.test.args[0]) == x):
+            return []
+        ts = s.test.args[1].elts if isinstance(s.test.args[1], (ast.Tuple, ast.List)) else [s.test.args[1]]
+        act = norm(s.body[0].value).replace("(%s)" % x, "(x)").replace("%s." % x, "x.")
+        for t in ts:
+            if norm(t) not in seen:          # an earlier clause wins
+                seen.add(norm(t))
+                out.append((norm(t), act))
+    return out
 
 
 def pass_kind(lam):
@@ -227,21 +260,18 @@ def rule_args(repo, rule):
         rule.violation(fe.loc(), fe.fq, norm(final)[:80] if final else "", "leaves are not passed to the converter", "for_each_in/leaf")
     sn = repo.fn(RT, "snark.snark__")
     fn_name = repo.fn(RT, "snark").params[0]
+    _CONV_DEFS.clear()
+    _CONV_DEFS.update({nm: ch.node for nm, ch in sn.children.items() if isinstance(ch.node, ast.FunctionDef)})
     calls = [c for c in ast.walk(sn.node) if isinstance(c, ast.Call) and norm(c.func) == "for_each_in" and len(c.args) == 2
-             and isinstance(c.args[0], ast.Lambda)]
+             and pass_kinds(c.args[0])]
     arg_convs = {}
     res_convs = {}
     for c in calls:
-        lam = c.args[0]
-        b = lam.body
-        x = lam.args.args[0].arg
-        if isinstance(b, ast.IfExp) and isinstance(b.test, ast.Call) and norm(b.test.func) == "isinstance" and norm(b.orelse) == x:
-            typ = norm(b.test.args[1])
-            act = norm(b.body)
-            if act.endswith("(%s)" % x) and act.split("(")[0].startswith("PubVal"):
-                arg_convs[typ] = (c, act)
-            elif act == "%s.val()" % x:
-                res_convs[typ] = (c, act)
+        for typ, act in pass_kinds(c.args[0]):
+            if act.endswith("(x)") and act.split("(")[0].startswith("PubVal"):
+                arg_convs.setdefault(typ, (c, act))
+            elif act == "x.val()":
+                res_convs.setdefault(typ, (c, act))
     want = {"int": "PubVal", "float": "PubValFxp", "bool": "PubValBool"}
     for typ, ctor in want.items():
         if typ in arg_convs and arg_convs[typ][1].startswith(ctor + "("):
@@ -270,7 +300,7 @@ def rule_args(repo, rule):
     key = "snark/callargs"
     for conds, e in (composed_at(sn.node, fc, star_nodes[0]) if star_nodes else []):
         passes, base = unwrap_passes(e)
-        kinds = [pass_kind(l) for l in passes]
+        kinds = [k_ for l in passes for k_ in pass_kinds(l)]
         empty = any(norm(t) in ("not %s" % vararg, "len(%s) == 0" % vararg) and pol for t, pol in conds) or any(
             norm(t) in (vararg, "len(%s) > 0" % vararg) and not pol for t, pol in conds)
         if norm(base) != vararg:
@@ -311,7 +341,12 @@ def rule_results(repo, rule, res_convs, sn, fc):
         else:
             rule.violation(sn.loc(), sn.fq, "result converters: %s" % sorted(res_convs), "%s results are returned without being made "
                            "public outputs" % typ, "snark/res/%s" % typ)
-    rets = [n for n in ast.walk(sn.node) if isinstance(n, ast.Return) and not any(isinstance(p, ast.Lambda) for p in parents(n))]
+    def _owner_fn(n):
+        for p in parents(n):
+            if isinstance(p, (ast.Lambda, ast.FunctionDef)):
+                return p
+        return None
+    rets = [n for n in ast.walk(sn.node) if isinstance(n, ast.Return) and _owner_fn(n) is sn.node]
     # the returned name is the last conversion of the function's result
     retvar = norm(getattr(fc, "_parent").targets[0]) if isinstance(getattr(fc, "_parent", None), ast.Assign) else None
     chain_ok = bool(rets)
@@ -319,7 +354,7 @@ def rule_results(repo, rule, res_convs, sn, fc):
     for r_ in rets:
         for _conds, e in composed_at(sn.node, r_, r_.value, stop_at=fc):
             passes, base = unwrap_passes(e)
-            have = {k[0]: k[1] for k in (pass_kind(l) for l in passes) if k}
+            have = {k[0]: k[1] for l in passes for k in pass_kinds(l) if k}
             if not (norm(base) == retvar or base is fc or norm(base) == norm(fc)) or not all(have.get(t) == "x.val()" for t in ("LinComb", "LinCombFxp", "LinCombBool")):
                 chain_ok = False
     if rets and chain_ok:
@@ -386,6 +421,8 @@ def rule_nothing_else(repo, rule, sn):
         for c in calls_in(own_stmt_part(s, "test" if isinstance(s, ast.If) else "stmt")) if not isinstance(s, (ast.Import, ast.ImportFrom)) else []:
             if any(isinstance(p, ast.Lambda) for p in parents(c)):
                 continue
+            if any(isinstance(p, ast.Raise) for p in parents(c)):
+                continue          # building the message of a refusal
             own.append(c)
     extra = [c for c in own if norm(c.func) not in ("for_each_in", fn_name, "ValueError")]
     if extra:
